@@ -32,6 +32,27 @@ def run(tier):
             scripts.append("case %s 20\nctx 0\nopen 0 %s r\nioption 0 %d %d\ninit_read 0 0\ndump 0\nend\n" % (tname, info[name][0], opt, val))
             twins.append((tname, buf, plain))
     fam = list(fam) + twins
+    # allocation failures in the advanced open (zck_init_adv_read, zck_read_lead, zck_read_header), the failed call repeated by
+    # the caller after zck_clear_error: if the repeated call reports success, what is reported is still the file's
+    from .. import allocfault
+    asw = []
+    for (name, buf, plain) in [t for t in fam if "+opt" not in t[0]]:
+        h = ref.parse_header(buf)
+        if not (h.ok and h.sealed and h.supported and hdrfam.fits(h) and len(h.entries) >= 3) or len(asw) >= (3 if tier == "quick" else 12):
+            continue
+        body = "ctx 0\nopen 0 %s r\ninit_adv_read 0 0\nread_lead 0\nread_header 0\nclear_error 0\nread_header 0\ndump 0\nend\n" % info[name][0]
+        na, _ev = allocfault._count("case %s+afbase 20\n" % name + body)
+        if any(e["op"] in ("Crash", "Hang") for e in _ev):
+            # no allocation was refused in this run: the repeated zck_read_header on an open context must be refused or harmless
+            ck.violation("header %s: zck_read_lead, zck_read_header, zck_clear_error, zck_read_header, getters on a valid file does not return (%s)" %
+                         (name, [e.get("sig") for e in _ev if e["op"] == "Crash"]), "case %s 20\n" % name + body)
+            continue
+        for k in range(1, na + 1):
+            tname = "%s+alloc%d" % (name, k)
+            info[tname] = (info[name][0], buf, plain)
+            scripts.append(allocfault._arm("case %s 20\n" % tname + body, k, 1))
+            asw.append(name); twins.append((tname, buf, False)); fam.append((tname, buf, False))
+    ck.extra["allocation_sweep_opens"] = len([t for t in twins if "+alloc" in t[0]])
     ck.extra["twins_with_an_option_call_before_the_open"] = len(twins)
     nproc = 8
     parts = ["".join(scripts[i::nproc]) for i in range(nproc)]
@@ -44,10 +65,16 @@ def run(tier):
         h = ref.parse_header(buf)
         f = {"ok": bool(h.ok), "sealed": bool(h.sealed), "supported": bool(h.supported), "fits": hdrfam.fits(h)}
         trace.append({"op": "reset"}); owner.append(name)
-        if not ce or any(e["op"] in ("Crash", "Hang") for e in ce):
+        if "+alloc" in name and ce and not any(e["op"] == "Hang" for e in ce):
+            if any(e["op"] == "Crash" for e in ce):
+                ck.case(name); continue                    # the process ended on the refused allocation: nothing was reported
+            rh = [e for e in ce if e["op"] == "read_header"]
+            op = rh[-1] if rh else {"ret": 0}
+        elif not ce or any(e["op"] in ("Crash", "Hang") for e in ce):
             trace.append({"op": "Crash", "case": name, "sig": [e.get("sig") for e in ce if e["op"] == "Crash"]}); owner.append(name)
             ck.case(name); continue
-        op = [e for e in ce if e["op"] == "init_read"][0]
+        else:
+            op = [e for e in ce if e["op"] == "init_read"][0]
         cur = {"lead": 0, "preface": 0, "index": 0, "sig": 0, "hsize": 0}
         trace.append({"op": "open", "plain": bool(plain), "f": f, "ret": op["ret"], "cur": cur, "name": name}); owner.append(name)
         ck.case(name)
@@ -61,7 +88,7 @@ def run(tier):
     ntool = 0
     for (name, buf, plain) in fam:
         h = ref.parse_header(buf)
-        if "+opt" in name or not (h.ok and h.sealed and h.supported and hdrfam.fits(h)):
+        if "+opt" in name or "+alloc" in name or not (h.ok and h.sealed and h.supported and hdrfam.fits(h)):
             continue
         if tier == "quick" and ntool >= 60:
             break
